@@ -104,6 +104,8 @@ pub(crate) trait VerifPerf {
     /// every builder field except the map/attributes slot is equal
     fn v_same_settings(&self, other: &Self) -> bool;
     fn v_attrs(&self) -> Option<&Self::Attrs>;
+    fn v_map(&self) -> Option<&crate::Beatmap>;
+    fn v_map_is_borrowed(&self) -> bool;
 }
 
 pub(crate) fn perf_same_settings(a: &crate::any::Performance<'_>, b: &crate::any::Performance<'_>) -> bool {
